@@ -73,6 +73,14 @@ mod verif_native_compactify {
         let expected_slices: Vec<Vec<u32>> = ne(&prev).into_iter().chain(ne(&cur)).chain(ne(&new)).collect();
         let actual_slices: Vec<Vec<u32>> = stream.slice_iter(StreamCursor::empty()).map(|s| s.iter().map(ids).collect()).collect();
         if actual_slices != expected_slices { return Err(format!("slice_iter = {actual_slices:?}, expected {expected_slices:?}")); }
+        // slice_iter from ANY cursor: a cursor counts raw generations (empty ones included), so the generations it hands out are the
+        // non-empty ones among those at or after the cursor, per matrix
+        for a in 0..=prev.len() { for b in 0..=cur.len() { for c in 0..=new.len() {
+            let cursor = StreamCursor::new(a.into(), b.into(), c.into());
+            let want: Vec<Vec<u32>> = ne(&prev[a..].to_vec()).into_iter().chain(ne(&cur[b..].to_vec())).chain(ne(&new[c..].to_vec())).collect();
+            let got: Vec<Vec<u32>> = stream.slice_iter(cursor).map(|s| s.iter().map(ids).collect()).collect();
+            if got != want { return Err(format!("slice_iter(cursor {a},{b},{c}) = {got:?}, expected {want:?}")); }
+        }}}
         // compactify on the real trace handler: one Ap state per value, at the value's trace position
         let trace = ExecutionTrace::from(vec![]);
         let mut trace_ctx = TraceHandler::from_trace(trace.clone(), trace);
